@@ -123,7 +123,7 @@ func main() {
 				fmt.Fprintf(out, "%s | BADOP\n", line)
 				continue
 			}
-			risky := f[0] == "mlr" || f[0] == "verbs" || f[0] == "verbsx" || f[0] == "sortv" || f[0] == "pair" || f[0] == "bystand" || f[0] == "rt" || f[0] == "rd" || f[0] == "style"
+			risky := f[0] == "fn" || f[0] == "dslr" || f[0] == "rdz" || f[0] == "chainb" || f[0] == "thenpipe" || f[0] == "mlr" || f[0] == "verbs" || f[0] == "verbsx" || f[0] == "sortv" || f[0] == "pair" || f[0] == "bystand" || f[0] == "rt" || f[0] == "rd" || f[0] == "style"
 			if risky {
 				out.Flush() // the op may kill the process (os.Exit inside Miller): keep everything before it
 			}
